@@ -65,6 +65,8 @@ func checkC10(c *Ctx) {
 	r.Rule("R10.4", "name index: newChildLogger returns the receiver's existing items[name] or stores newentry(receiver, ...) under that same key and returns it; an empty/absent name gets a generated one; WithSkip(n)'s child name depends on n; the package-level New passes a nil parent")
 	r.Rule("R10.5", "navigation: Parent returns owner; Root follows owner to nil; Each visits the receiver at depth 0 and forEachLogger visits each child exactly once at depth+1")
 	r.Rule("R11.1", "(shared with C11) a child 'carrying the new setting' carries the format the mode call denotes: the transition functions of SetJSONMode/SetColorMode equal the documented table")
+	r.Rule("R03.1", "(shared with C03) routing decision and tables")
+	r.Rule("R03.2", "(shared with C03) writer isolation at creation: a new writer set is initialised by Reset() with fresh lists of its own (no package-level list shared between loggers, whose spare capacity a later AddWriter of one logger would write into for all)")
 	r.Rule("R10.8", "package-level namesakes: a package-level function that has a namesake among the default logger's methods and calls a method on the default logger calls that namesake (SetSkip sets, WithSkip derives)")
 	r.Rule("R10.7", "argument lists belong to the caller: no function of the package stores into an element of its variadic or []any parameter (directly, through a re-slice or a join), so New(list...) called twice with one list creates two loggers")
 	r.Rule("R10.6", "default level: init stores WarnLevel to the package default before the environment-dependent overrides, ResetLevel restores WarnLevel, GetLevel returns that variable and newentry's detached default is GetLevel()")
@@ -88,6 +90,7 @@ func checkC10(c *Ctx) {
 		callerArgsUntouched(c, p, "R10.7")
 		packageNamesakes(c, p, "R10.8")
 		c11Transitions(c, p, m)
+		c03Routing(c, p, m)
 	}
 	c.Floor["R10.1"] = 40
 	c.Floor["R10.2"] = 30
